@@ -233,6 +233,14 @@ def generic_cases():
     out.append(dict(cases.generic_W(4), Lambda=0.2, form="components",
                     matter="Tdown4", vacuum=False, trim=3, kw=KW, kappa=1.0,
                     first="dts_Gamma_bssnok"))
+    # memory limit below the size of the inputs (the memory stage of the
+    # clean-up runs after every calculation), and a clean-up every other one
+    out.append(dict(cases.generic_W(2), Lambda=0.1, form="components",
+                    matter="Tdown4", vacuum=False, trim=3, kw=KW,
+                    cache_kw=dict(memory_threshold_inGB=1e-7)))
+    out.append(dict(cases.generic_W(2), Lambda=0.0, form="tensors",
+                    matter="Tdown4", vacuum=False, trim=3, kw=KW,
+                    cache_kw=dict(clear_cache_every_nbr_calc=2)))
     out.append(dict(cases.generic_FL_tiny(4), Lambda=0.0, form="components",
                     matter="fluid", vacuum=False, trim=3, kw=KW))
     out.append(dict(cases.generic_KSin(4, trim=3), Lambda=0.0,
